@@ -16,6 +16,24 @@ def nows(s):
     return re.sub(r"\s+", "", s)
 
 
+def check_induced_field(rep, F):
+    fs = [f_ for f_ in F.funcs if f_.qname == X + "eeInteractor::ApplyInducedField_site" and f_.j["template"] != "pattern"]
+    rep.floor("R15.7", len(fs), 1, "instantiations of eeInteractor::ApplyInducedField_site")
+    for k_, f_ in enumerate(fs):
+        rep.analysed(f_)
+        src = f_.j["params"][0]["name"]
+        reads = [n for n in f_.walk() if n.get("k") == "mcall" and show(unwrap(n.get("obj") or {})) == src]
+        names = sorted({(n.get("callee") or "").split("::")[-1] for n in reads})
+        # the vector multiplied with the transposed Thole tensor
+        prod = [n for n in f_.walk() if n.get("k") in ("opcall", "binop") and n.get("op") == "*" and "transpose" in show(n) and src in show(n)]
+        fed = sorted({(m.get("callee") or "").split("::")[-1] for n in prod for m in walk(n) if m.get("k") == "mcall" and show(unwrap(m.get("obj") or {})) == src})
+        ok = names == ["Induced_Dipole"] and fed == ["Induced_Dipole"]
+        rep.check(ok, "R15.7", "induced-field-source#%d" % (k_ + 1), "field += T^T * %s.Induced_Dipole()" % src,
+                  "eeInteractor::ApplyInducedField_site multiplies the Thole tensor with %s of the source site (moments read from it: %s); required is the induced dipole only - with a "
+                  "permanent dipole on the source the accumulated field is off by T_thole * mu_permanent and no longer equals the derivative of the pair energy with respect to the dipole"
+                  % (fed or "nothing recognised", names), f_.loc(prod[0]) if prod else f_.loc(), sample=(k_ == 0))
+
+
 def run(rep, tier):
     rep.explanation = ("Only the damped dipole-dipole interaction tensor and the monopole factor are decided: FillTholeInteraction is folded "
                        "to T = -3 l5 a a^T + l3 I over the unit vector a (norm as a positive atom R with R^2 = |posB-posA|^2); symmetry, the "
@@ -28,6 +46,8 @@ def run(rep, tier):
                       "for every combination of the two ranks; with rank(A) = 2 the 9-component form is used (else A's quadrupole terms are dropped and E(A,B) != E(B,A))")
     rep.rule("R15.5", "StaticSite::Rotate(R, ref) rotates every moment the site carries: position ref + R (pos - ref); dipole components R d whenever rank > 0; "
                       "quadrupole spherical(R C R^T) whenever rank > 1 (rotation invariance of the pair energy needs positions and moments to turn together)")
+    rep.rule("R15.7", "ApplyInducedField_site: the field added to the polarisable site is T_thole(site1, site2)^T times the INDUCED dipole of the source; no other moment of the "
+                      "source is read there (its permanent moments act through ApplyStaticField: reading the total dipole counts the permanent dipole twice and breaks field = dE/dmu)")
     rep.rule("R15.6", "VSiteA<N>(A, B) = T(R, u) Q(B) with T the interaction tensor of the Cartesian multipole expansion, (q_A + mu_A.d + Theta_A:dd/3)(q_B - mu_B.d + "
                       "Theta_B:dd/3) 1/|r|, in real spherical components, for N = 4, 9 and rank(B) = 0, 1, 2, block by block; T depends on posB - posA only and not on A's "
                       "moments. The expansion tensor satisfies T_ij(u) = T_ji(-u) (the pair energy does not depend on the order of the sites), T_00 = 1/R, is a contraction "
@@ -109,6 +129,7 @@ def run(rep, tier):
                         "(Q20, Q21c, Q21s, Q22c, Q22s); floating-point error of the compiled code and the accuracy of the expansion for finite clusters are not decided",
                         "the field/energy derivative relation is decided only through R15.4 (field and energy are read off the same VSiteA vector)"]
     check_size_selection(rep, F)
+    check_induced_field(rep, F)
     check_rotate(rep)
     check_interaction_tensor(rep, F)
 
